@@ -7,6 +7,6 @@ for x in ${@:-a b}; do
   D=$A/$P/mutant_$x.diff; T=$(ls $A/$P/mutant_${x}_demo*_test.go 2>/dev/null | head -1)
   [ -f "$D" ] || { echo "$P $x: no diff"; continue; }
   DIR=.; grep -q "^package stanza" "$T" 2>/dev/null && DIR=stanza
-  EVAL_OUT=$E/out-${P}_$x /verif/evalmutant.sh $P $D "$T" $DIR > $E/${P}_$x.txt 2>&1
+  EVAL_OUT=$E/out-${P}_$x ${VERIF_HOME:-/verif}/evalmutant.sh $P $D "$T" $DIR > $E/${P}_$x.txt 2>&1
   echo "== $P $x: $(grep -c 'VIOLATION' $E/${P}_$x.txt) violation lines"; grep -E "demo-with|demo-without|suite-with|runs \(|PATCH" $E/${P}_$x.txt | cut -c1-220
 done
